@@ -694,7 +694,8 @@ theorem admitA_inv {s : Server} {i : Nat} {k : Connect} (h : SyncInvX (· = i) s
     (hi : i < s.objs.length) (hid : (getObj s i).id = k.id) (hunreg : ∀ c, assocGet s.clients c ≠ some i)
     (hpi : ∀ p ∈ s.pending, p.obj ≠ i) (hto : (getObj s i).takenOver = false) :
     SyncInv (admitA s i k).1 ∧ Lst s (admitA s i k).1 ∧
-      ∀ e, assocGet s.clients k.id = some e → (getObj (admitA s i k).1 e).takenOver = true := by
+      (∀ e, assocGet s.clients k.id = some e → (getObj (admitA s i k).1 e).takenOver = true) ∧
+      (k.clean = true → (getObj (admitA s i k).1 i).subs = (getObj s i).subs) := by
   unfold admitA
   extract_lets +onlyGivenNames src s0 exLive
   have q0 : Quiet s s0 := (Quiet.refl s).upd8
@@ -704,7 +705,8 @@ theorem admitA_inv {s : Server} {i : Nat} {k : Connect} (h : SyncInvX (· = i) s
   rename_i s' o1 present heq
   show SyncInv { s' with clients := assocSet s'.clients k.id i } ∧
     Lst s { s' with clients := assocSet s'.clients k.id i } ∧
-    ∀ e, assocGet s.clients k.id = some e → (getObj s' e).takenOver = true
+    (∀ e, assocGet s.clients k.id = some e → (getObj s' e).takenOver = true) ∧
+    (k.clean = true → (getObj s' i).subs = (getObj s i).subs)
   split at heq
   · rename_i e hce
     have hce : assocGet s.clients k.id = some e := hce
@@ -748,7 +750,10 @@ theorem admitA_inv {s : Server} {i : Nat} {k : Connect} (h : SyncInvX (· = i) s
         rw [(q3.obj e).subs]; exact unsubscribeClient_subs sD e heD
       have sm : Same sD (modObj s3 e (fun x => { x with takenOver := true })) := o3.same.trans (same_setObj s3 e _)
       refine ⟨SyncInvX.register hD wD hunregD hpiD sm.len sm.connOf sm.clients sm.pending sm.parked sm.parkedEarly
-        ?_ ?_ ?_ (o3.idx hD.idx) ?_ ?_, ⟨?_, ?_⟩, ?_⟩
+        ?_ ?_ ?_ (o3.idx hD.idx) ?_ ?_, ⟨?_, ?_⟩, ?_, ?_⟩
+      rotate_right
+      · intro _
+        rw [hGk i hei.symm, (o3.other i hei.symm).subs, (qD.obj i).subs]
       rotate_right
       · intro e' he'
         rw [hce] at he'
@@ -789,6 +794,7 @@ theorem admitA_inv {s : Server} {i : Nat} {k : Connect} (h : SyncInvX (· = i) s
       · show (modObj s3 e (fun x => { x with takenOver := true })).parkedEarly = s.parkedEarly
         rw [sm.parkedEarly, qD.parkedEarly]
     · -- the session is inherited
+      rename_i hcond
       extract_lets +onlyGivenNames s2 ex2 rmx s2i src2 s3 s4 s5 s6 at heq
       rw [← (Prod.mk.inj heq).1]
       -- s2: the old object is marked taken over
@@ -860,7 +866,12 @@ theorem admitA_inv {s : Server} {i : Nat} {k : Connect} (h : SyncInvX (· = i) s
         intro c f hcf
         exact (Entry.congr q23.plain q23.shared c f).mp hcf
       refine ⟨SyncInvX.register hD wD hunregD hpiD sm.len sm.connOf sm.clients sm.pending sm.parked sm.parkedEarly
-        ?_ ?_ ?_ ?_ ?_ ?_, ⟨?_, ?_⟩, ?_⟩
+        ?_ ?_ ?_ ?_ ?_ ?_, ⟨?_, ?_⟩, ?_, ?_⟩
+      rotate_right
+      · intro hcl
+        exfalso
+        apply hcond
+        rw [hcl]; rfl
       rotate_right
       · intro e' he'
         rw [hce] at he'
@@ -911,7 +922,7 @@ theorem admitA_inv {s : Server} {i : Nat} {k : Connect} (h : SyncInvX (· = i) s
     have hce : assocGet s.clients k.id = none := hce
     cases heq
     refine ⟨SyncInvX.register h0 w0 hunreg hpi rfl rfl rfl rfl rfl rfl (fun k' _ _ => QC.refl _) ?_ ?_ h0.idx
-      (fun c f _ hcf => hcf) ?_, ⟨rfl, rfl⟩, ?_⟩
+      (fun c f _ hcf => hcf) ?_, ⟨rfl, rfl⟩, ?_, fun _ => rfl⟩
     rotate_right
     · intro e' he'
       rw [hce] at he'; cases he'
